@@ -19,11 +19,22 @@
   methods only the table knows (`C14_table_only_counterexample`), envelope leniency (`C14_version_witness`,
   `C14_null_id_witness`, `C14_missing_method_witness`).
 
-  The client half of the statement (three clients return equal values for equal answers) is covered for the result
-  decoders by C02 (`Mcp.Props.C02`: one decoder set behind all clients); it has no theorem here.
+  The client half ("the library's three clients return equal values for equal server answers"): every request method of
+  `Client` (Streamable HTTP and legacy SSE) and of `StdioClient` is "transport.sendRequest → isErrorResponse → the method's
+  decoder", and the decoders are shared (C02's model). `Mcp.RpcClient` models what each transport hands to the decoder for
+  one answer (JSON body / `message` event of the legacy SSE stream, event of a POST answered as an SSE stream, stdio line).
+  `C14_clients_equal`: for EVERY decoder `D` that does not tell `null` from `{}` and every valid answer — a result of any
+  JSON shape, `null` included, or an error object — the four paths return the same value (the decoded result, or the same
+  error code and message). `C14_decoders_null_is_empty` discharges the side condition for the decoders of C02's model; the
+  reason it is needed is a real difference, recorded in `C14_stdio_null_result_witness`: the stdio transport replaces a
+  `null` result by `{}` before the decoder sees it. For answers that are not valid the clients fail in different ways
+  (`C14_invalid_answer_witness`). The harness component `rpcclients` drives the three real clients against peers giving the
+  same answers (large ones included) and compares the returned values pairwise.
 -/
 import Mcp.Lemmas.Rpc
 import Mcp.Gen.RpcFacts
+import Mcp.Model.RpcClient
+import Mcp.Model.Content
 namespace Mcp.Props.C14
 open Mcp.Str Mcp.Json Mcp.Content Mcp.RpcSpec Mcp.Rpc Mcp.Session
 
@@ -146,5 +157,66 @@ example :
     (serveStreamable (demoCfg .sessionsOff) demoReg {} (postOf .none false j)).2.errorCode = some (-32602) ∧
     (serveSSE demoReg (ssePostOf j)).errorCode = some (-32602) ∧ (serveStdio demoReg (.json j)).errorCode = some (-32602) := by
   decide +kernel
+
+/-! ## the clients -/
+
+open Mcp.RpcClient in
+/-- The Streamable client reading a JSON body, the Streamable client reading a POST answered as an SSE stream, the legacy
+    SSE client and the stdio client return the same value for the same valid answer: for every decoder `D` that treats `null`
+    like `{}`, every success answer (any result) and every error answer. -/
+theorem C14_clients_equal {α : Type} (D : Json → α) (hnull : D .null = D (.obj [])) (o : Obj)
+    (hv : successAnswer o ∨ errorAnswer o) :
+    finish D (recvPostSSE (.obj o)) = finish D (recvHTTP (.obj o)) ∧ finish D (recvStdio (.obj o)) = finish D (recvHTTP (.obj o)) := by
+  rcases hv with ⟨hj, ⟨i, hi, hn⟩, he, hr⟩ | ⟨hj, ⟨i, hi, hn⟩, e, c, m, he, hc, hm⟩
+  · have : ∃ r, lookup o t!"result" = some r := by
+      simp [hasKey] at hr; exact Option.isSome_iff_exists.mp (by simpa [Option.isSome_iff_ne_none] using hr)
+    obtain ⟨r, hres⟩ := this
+    have hel : lookup o t!"error" = none := by simpa [hasKey] using he
+    constructor
+    · simp [recvPostSSE, recvHTTP, hasKey, hel, hres]
+    · cases r <;> simp [recvStdio, recvHTTP, hj, hi, hn, hel, hres, finish, isErrorResponse, hasKey, lookup, hnull]
+  · constructor
+    · simp [recvPostSSE, recvHTTP, hasKey, he]
+    · simp [recvStdio, recvHTTP, hj, hasKey, hi, hn, he, errorDecodes, hc, hm]
+
+open Mcp.Content in
+/-- The side condition holds for the result decoders of C02's model (tools/call, prompts/get, resources/read, tools/list):
+    `null` and `{}` decode alike — to the same value or to the same error. -/
+theorem C14_decoders_null_is_empty (bad : Json → Bool) :
+    parseResult .null = parseResult (.obj []) ∧ parseGetPrompt .null = parseGetPrompt (.obj []) ∧
+    parseReadResource .null = parseReadResource (.obj []) ∧ parseListTools bad .null = parseListTools bad (.obj []) := by
+  refine ⟨?_, ?_, ?_, ?_⟩ <;>
+    simp [parseResult, parseGetPrompt, parseReadResource, parseListTools, asMapTarget, lookup, extractArray, extractString,
+      parseTools]
+
+open Mcp.RpcClient in
+/-- The real difference behind that side condition: for `"result": null` the stdio transport hands `{}` to the decoder, the
+    HTTP transports hand `null`. -/
+theorem C14_stdio_null_result_witness :
+    let o : Obj := [(t!"jsonrpc", .str t!"2.0"), (t!"id", .int 1), (t!"result", .null)]
+    (match recvStdio (.obj o) with | .raw (.obj []) => true | _ => false) = true ∧
+    (match recvHTTP (.obj o) with | .raw .null => true | _ => false) = true ∧
+    (match recvPostSSE (.obj o) with | .raw .null => true | _ => false) = true := by
+  decide
+
+open Mcp.RpcClient in
+/-- Outside the statement (not a valid answer): an id with neither result nor error ends the call in three different ways —
+    "missing result field" at once, "no final response" at the end of the stream, the call's timeout on stdio. -/
+theorem C14_invalid_answer_witness :
+    let o : Obj := [(t!"jsonrpc", .str t!"2.0"), (t!"id", .int 1)]
+    (match recvHTTP (.obj o) with | .failed .missingResult => true | _ => false) = true ∧
+    (match recvPostSSE (.obj o) with | .failed .noFinalResponse => true | _ => false) = true ∧
+    (match recvStdio (.obj o) with | .failed .timeout => true | _ => false) = true := by
+  decide
+
+open Mcp.RpcClient in
+/-- non-vacuity: both kinds of valid answer exist, and a JSON-RPC error reaches the caller with its code and message -/
+example :
+    successAnswer [(t!"jsonrpc", .str t!"2.0"), (t!"id", .int 7), (t!"result", .obj [(t!"content", .arr [])])] ∧
+    errorAnswer [(t!"jsonrpc", .str t!"2.0"), (t!"id", .int 7), (t!"error", .obj [(t!"code", .int (-32602)), (t!"message", .str t!"no")])] ∧
+    (match finish (fun _ => ()) (recvStdio (.obj [(t!"jsonrpc", .str t!"2.0"), (t!"id", .int 7),
+        (t!"error", .obj [(t!"code", .int (-32602)), (t!"message", .str t!"no")])])) with
+      | .rpcError (some (.int c)) (some (.str _)) => c == -32602 | _ => false) = true := by
+  refine ⟨⟨rfl, ⟨_, rfl, rfl⟩, rfl, rfl⟩, ⟨rfl, ⟨_, rfl, rfl⟩, _, _, _, rfl, rfl, rfl⟩, by decide⟩
 
 end Mcp.Props.C14
